@@ -48,3 +48,56 @@ func VH_C08_fastbounds_hull() {
 		vAssert("C08.fastbounds.hull", r.X0 <= pt[0] && pt[0] <= r.X1 && r.Y0 <= pt[1] && pt[1] <= r.Y1)
 	}
 }
+
+// C08-H2/H3: Bounds on one quadratic (exact real arithmetic): the box contains the curve point
+// at every parameter t in [0,1] and every side is attained (at an end point or at the interior
+// extremum), so it is the smallest box.  One axis is symbolic at a time (the other is held at
+// concrete values), which keeps the polynomial reasoning at 4 variables.
+func vhC08QuadAt(p0, p1, p2, t float64) float64 {
+	return (1-t)*(1-t)*p0 + 2*t*(1-t)*p1 + t*t*p2
+}
+
+func VH_C08_bounds_quad_Q() {
+	vMerge(false) // non-linear queries: one small query per branch combination
+	axisY := vChoose(0, 1) == 1
+	a0, a1, a2 := vhReal(), vhReal(), vhReal()
+	// general position: keep the extremum decision away from the library's 1e-10 tolerances
+	den := a0 - 2*a1 + a2
+	vAssume(math.Abs(den) >= 1e-3 || den == 0)
+	p := &Path{}
+	var b0, b1 float64 // bounds on the symbolic axis
+	if axisY {
+		p.d = []float64{MoveToCmd, 1, a0, MoveToCmd, QuadToCmd, 3, a1, 2, a2, QuadToCmd}
+		r := p.Bounds()
+		b0, b1 = r.Y0, r.Y1
+		vAssert("C08.bounds.quad.other_axis", r.X0 <= 1 && r.X1 >= 2)
+	} else {
+		p.d = []float64{MoveToCmd, a0, 1, MoveToCmd, QuadToCmd, a1, 3, a2, 2, QuadToCmd}
+		r := p.Bounds()
+		b0, b1 = r.X0, r.X1
+		vAssert("C08.bounds.quad.other_axis", r.Y0 <= 1 && r.Y1 >= 2)
+	}
+	t := vNondetF64()
+	vAssume(0 <= t && t <= 1)
+	v := vhC08QuadAt(a0, a1, a2, t)
+	vAssert("C08.bounds.quad.contains_curve", b0-1e-9 <= v && v <= b1+1e-9)
+	// tightness: each side is attained
+	lowHit := vhNear(b0, a0) || vhNear(b0, a2)
+	highHit := vhNear(b1, a0) || vhNear(b1, a2)
+	if den != 0 {
+		ts := (a0 - a1) / den
+		if 0 < ts && ts < 1 {
+			e := vhC08QuadAt(a0, a1, a2, ts)
+			lowHit = lowHit || vhNear(b0, e)
+			highHit = highHit || vhNear(b1, e)
+		}
+	}
+	vAssert("C08.bounds.quad.tight", lowHit && highHit)
+	// FastBounds contains Bounds
+	f := p.FastBounds()
+	if axisY {
+		vAssert("C08.bounds.quad.inside_fastbounds", f.Y0 <= b0 && b1 <= f.Y1)
+	} else {
+		vAssert("C08.bounds.quad.inside_fastbounds", f.X0 <= b0 && b1 <= f.X1)
+	}
+}
